@@ -42,6 +42,19 @@ def cases(ctx):
     # a user's own command library whose command names equal EEMS 2.0 names but for letter case
     for i in range(ctx.n(300, 20000)):
         yield {"kind": "viaprogram", "prog": _gen_user_program(rng), "rseed": rng.randrange(10 ** 9), "rawnl": rng.random() < 0.5, "style": rng.choice(["wild", "wild", "canon"])}
+    # EEMS 2.0 READ commands whose field names are not identifiers: the result is named as the field is
+    for i in range(ctx.n(100, 6000)):
+        cmds = []
+        for k in range(rng.randint(1, 4)):
+            nm = rng.choice(ODD_NAMES) + ("" if k == 0 else "_%d" % k)
+            args = [{"name": "InFileName", "value": {"t": "qstr", "v": "table %d.csv" % k, "q": '"'}}]
+            if rng.random() < 0.5:
+                args.append({"name": "InFieldName", "value": {"t": "qstr", "v": nm, "q": rng.choice(['"', "'"])}})
+            else:
+                args += [{"name": "InFieldName", "value": {"t": "qstr", "v": "col%d" % k, "q": '"'}}, {"name": "NewFieldName", "value": {"t": "qstr", "v": nm, "q": '"'}}]
+            rng.shuffle(args)
+            cmds.append({"result": None, "command": "READ", "args": args, "trail": False, "_name": nm})
+        yield {"kind": "viaprogram", "prog": {"commands": cmds}, "rseed": rng.randrange(10 ** 9), "rawnl": False, "style": rng.choice(["wild", "canon"]), "v2": True}
     for i in range(ctx.n(1200, 80000)):
         # corruption of well-behaved programs (quoted strings / numbers / identifier words only, so that the base text parses)
         prog = syntax.gen_program(rng, max_cmds=3, max_args=3, ustr_classes=["word"], rich=False)
@@ -55,7 +68,8 @@ def cases(ctx):
 
 
 USER_NAMES = ["dif", "Dif", "union", "Union", "min", "Sum_", "sum", "not", "Not", "or", "read", "Read", "mean", "Copyfield", "xor"]
-ODD_STRINGS = ["first\n   \nlast", "  two\n\t\n  three", "a\n \n \nb", "line one\n    indented line two", "\n   \n", "x\n    "]
+ODD_NAMES = ["2020_NDVI", "Elev.m", "Slope (deg)", "a-b", "99", "x y", "Cover%", "é_field", "A.B.C", "_", "n/a"]
+ODD_STRINGS = ["cost in $$", "$$", "${Name} and $Name", "first\n   \nlast", "  two\n\t\n  three", "a\n \n \nb", "line one\n    indented line two", "\n   \n", "x\n    "]
 
 
 def _gen_user_program(rng):
@@ -91,9 +105,15 @@ def run_viaprogram(ctx, case):
     ctx.count("files_loaded_through_the_program")
     ctx.feature(("viaprogram", tuple(sorted(set(c["command"] for c in prog["commands"])))[:4], case["rawnl"], case["style"]))
     try:
-        p = Program.from_source(text, libraries=("usercmds",))
+        p = Program.from_source(text, libraries=("usercmds",) if not case.get("v2") else ("mpilot.libraries.eems.csv", "usercmds"))
     except Exception as e:
-        ctx.fail("via-program:well-formed-file-rejected:%s" % type(e).__name__, {"text": text[:600], "error": str(e)[:200]})
+        ctx.fail("via-program:well-formed-file-rejected:%s%s" % (type(e).__name__, ":eems2-read-of-an-oddly-named-field" if case.get("v2") else ""), {"text": text[:600], "error": str(e)[:200]})
+        return
+    if case.get("v2"):
+        got = [(n, type(c).__name__) for n, c in p.commands.items()]
+        want = [(c["_name"], "EEMSRead") for c in prog["commands"]]
+        if got != want:
+            ctx.fail("via-program:eems2-read:result-names-differ", {"got": got[:4], "want": want[:4], "text": text[:600]})
         return
 
     def plain(v):
